@@ -156,6 +156,68 @@ func stdLookup(src string, path []astStep) (st string, raw string) {
 	return "found", compact(cur)
 }
 
+// padAlong adds 17 filler members to every object a key step of the path passes through (not to the addressed value).
+// ok is false when nothing was padded or an index step meets an object (there the position of members matters).
+func padAlong(t *tree, path []astStep) (string, bool) {
+	padded := false
+	cur := t
+	for _, st := range path {
+		if cur == nil {
+			break
+		}
+		switch {
+		case cur.K == "obj" && !st.IsKey:
+			return "", false
+		case cur.K == "obj":
+			next := -1
+			for i, k := range cur.Keys {
+				if k == st.Key {
+					next = i
+					break
+				}
+			}
+			var nxt *tree
+			if next >= 0 {
+				nxt = cur.Elems[next]
+			}
+			var keys []string
+			var elems []*tree
+			filler := func(i int) {
+				keys = append(keys, fmt.Sprintf("p%02d", i))
+				switch i % 4 {
+				case 0:
+					elems = append(elems, &tree{K: "num", N: i})
+				case 1:
+					elems = append(elems, &tree{K: "str", S: "x"})
+				case 2:
+					elems = append(elems, &tree{K: "arr", Elems: []*tree{{K: "num", N: 1}, {K: "obj", Keys: []string{"a"}, Elems: []*tree{{K: "null"}}}}})
+				default:
+					elems = append(elems, &tree{K: "obj", Keys: []string{"a", "b"}, Elems: []*tree{{K: "num", N: 2}, {K: "arr"}}})
+				}
+			}
+			for i := 0; i < 9; i++ {
+				filler(i)
+			}
+			keys = append(keys, cur.Keys...)
+			elems = append(elems, cur.Elems...)
+			for i := 9; i < 17; i++ {
+				filler(i)
+			}
+			cur.Keys, cur.Elems = keys, elems
+			padded = true
+			cur = nxt
+		case cur.K == "arr" && !st.IsKey && st.I >= 0 && st.I < len(cur.Elems):
+			cur = cur.Elems[st.I]
+		default:
+			cur = nil
+		}
+	}
+	if !padded {
+		return "", false
+	}
+	return t.String(), true
+}
+
 func pathArgs(path []astStep) []interface{} {
 	var out []interface{}
 	for _, s := range path {
@@ -409,9 +471,19 @@ func searchHandle(in []byte) []byte {
 	od := obsBegin()
 	args := pathArgs(c.Path)
 	base := c
-	for plan := 0; plan < 4; plan++ {
+	for plan := 0; plan < 5; plan++ {
 		r := rand.New(rand.NewSource(c.Seed*7919 + int64(c.ID)*31 + int64(plan)))
 		c = base
+		if plan == 4 {
+			// scale the objects ON THE WAY to the addressed value beyond the 16-member threshold (key index, chunked storage):
+			// 17 filler members with keys outside the path alphabet around the original ones; the addressed value itself is
+			// left alone, so every required view is unchanged
+			wide, ok := padAlong(treeFromText(c.Doc), c.Path)
+			if !ok {
+				continue
+			}
+			c.Doc = wide
+		}
 		if plan == 3 {
 			// scale the string values (31/32/33/64... bytes: vector-width boundaries of the skipping routines);
 			// the expected views change by the same substitution
@@ -434,7 +506,7 @@ func searchHandle(in []byte) []byte {
 		if plan >= 1 {
 			text = spaced(c.Doc, 1, r)
 		}
-		if plan == 2 {
+		if plan == 2 || plan == 4 {
 			text = escapeKeys(text, r)
 		}
 		func() {
